@@ -24,6 +24,9 @@ Definition outcome_eqb (a b : outcome) : bool :=
   | OReturn, OReturn => true
   | OExit x, OExit y => Z.eqb x y
   | ORaised x, ORaised y => exn_eqb x y
+  | ORaisedTd a x, ORaisedTd b y =>
+      (fix eq (a b : list nat) := match a, b with [] , [] => true | p :: a', q :: b' => Nat.eqb p q && eq a' b' | _, _ => false end) a b
+      && match x, y with None, None => true | Some p, Some q => Nat.eqb p q | _, _ => false end
   | _, _ => false
   end.
 
@@ -45,6 +48,7 @@ Definition is_td (o : obs) : bool := match o with Td _ _ => true | _ => false en
 Record run_case := RC {
   rc_cli : bool;
   rc_alive : list ev;        (* a prefix of the history after which the application was still running *)
+  rc_raisers : list nat;     (* the teardown callbacks that raise when called *)
   rc_hist : list ev;         (* everything the application's code did, in execution order *)
   rc_obs : list obs;         (* the teardown, as observed *)
   rc_out : outcome }.
@@ -52,12 +56,12 @@ Record run_case := RC {
 (* after a crash every service task is cancelled at once, so where their cancellations fall among
    the callbacks is a race: compare the callbacks in order and the cancellations as a set *)
 Definition check_run (c : run_case) : bool :=
-  match app (rc_cli c) (rc_hist c) with
+  match app_r (rc_cli c) (rc_raisers c) (rc_hist c) with
   | None => false
   | Some (o, out) =>
       outcome_eqb out (rc_out c) &&
       (match out with
-       | ORaised (XCrash _) =>
+       | ORaised (XCrash _) | ORaisedTd _ (Some _) =>
            list_eqb obs_eqb (filter is_td o) (filter is_td (rc_obs c)) &&
            mset_eqb obs_eqb (filter (fun x => negb (is_td x)) o) (filter (fun x => negb (is_td x)) (rc_obs c))
        | _ => list_eqb obs_eqb o (rc_obs c)
@@ -65,4 +69,4 @@ Definition check_run (c : run_case) : bool :=
       match app (rc_cli c) (rc_alive c) with None => true | Some _ => false end
   end.
 
-Definition show_run (c : run_case) := app (rc_cli c) (rc_hist c).
+Definition show_run (c : run_case) := app_r (rc_cli c) (rc_raisers c) (rc_hist c).
